@@ -33,7 +33,7 @@ var substs = []subst{
 // atomicYield lists files in which every statement that calls sync/atomic gets a schedule point in front of it
 // (inserted at build time, nothing changes in /repo): identifier and counter allocation, where a read-modify-write that
 // is no longer one atomic operation only shows when another task runs between the read and the write.
-var atomicYield = []string{"media/cid.go", "media/consumptions.go", "stats/conns.go", "provider/security/id.go"}
+var atomicYield = []string{"media/cid.go", "provider/security/id.go"}
 
 const simhookPath = "github.com/cnotch/ipchub/utils/simhook"
 
